@@ -45,12 +45,16 @@ class Parser:
             raise FormulaError(expression)
         builder = self.ast_builder(match=match)
         filters, tokens, stack = self.filters, [], []
-        Parenthesis('(').ast(tokens, stack, builder)
+        start = Parenthesis('(')
+        start.ast(tokens, stack, builder)
         while expr:
             for f in filters:
                 try:
                     token = f(expr, context)
                     token.ast(tokens, stack, builder)
+                    if not stack or stack[0] is not start:
+                        # The formula closed a parenthesis it did not open.
+                        raise ParenthesesError()
                     expr = expr[token.end_match:]
                     break
                 except TokenError:
@@ -61,6 +65,8 @@ class Parser:
                 raise FormulaError(expression)
         Parenthesis(')').ast(tokens, stack, builder)
         tokens = tokens[1:-1]
+        if stack:  # An opened parenthesis has never been closed.
+            raise ParenthesesError()
         while stack:
             if isinstance(stack[-1], Parenthesis):
                 raise ParenthesesError()
